@@ -1,4 +1,5 @@
 SPECIFICATION ObsSpec
 CONSTANTS QCap = 10 MaxPend = 100000 MaxOps = 1000000
           NoInboundFilter = FALSE NoNullCheck = FALSE AnyoneOpens = FALSE RepIds = {}
+          TrackHistory = TRUE FlowCache = "none" HostIps = {} HostPorts = {} SrcSet = {} DkSet = {}
 INVARIANT ObsOK
